@@ -46,6 +46,8 @@ var trList = []trFunc{
 	{"CodeMatcher", "matcher", "Matcher.PreMatch", "Matcher.PreMatch", true, false, nil, nil, ""},
 	{"CodeMatcher", "matcher", "Matcher.MatchRegexAndExpand", "Matcher.MatchRegexAndExpand", true, false, nil, nil, ""},
 	{"CodeAgg", "aggregator", "Aggregator.AddMaybe", "Aggregator.AddMaybe", false, false, nil, nil, ""},
+	{"CodeFilters", "destination", "Destination.Match", "Destination.Match", true, false, nil, nil, ""},
+	{"CodeFilters", "route", "baseRoute.Match", "baseRoute.Match", true, false, nil, nil, ""},
 	{"CodeRoute", "route", "metricName", "metricName", true, false, nil, nil, ""},
 	{"CodeRoute", "route", "SendAllMatch.Dispatch", "SendAllMatch.Dispatch", false, false, nil, nil, ""},
 	{"CodeRoute", "route", "SendFirstMatch.Dispatch", "SendFirstMatch.Dispatch", false, false, nil, nil, ""},
@@ -71,13 +73,13 @@ var trList = []trFunc{
 }
 
 // generated modules that import another generated module (a translated function calling a translated method)
-var trImports = map[string][]string{"CodeAgg": {"CodeMatcher"}}
+var trImports = map[string][]string{"CodeAgg": {"CodeMatcher"}, "CodeFilters": {"CodeMatcher"}}
 
 var leanTypes = map[string]string{
 	"[]byte": "Bytes", "string": "Bytes", "[][]byte": "List Bytes", "bool": "Bool", "int": "Int", "uint32": "Int", "int64": "Int",
 	"uint16": "Int", "uint": "Int", "float64": "F64", "error": "Err",
 	"*Matcher": "Matcher", "Matcher": "Matcher", "*Table": "Table", "*SendAllMatch": "SendAllMatch", "*SendFirstMatch": "SendFirstMatch",
-	"*ConsistentHasher": "ConsistentHasher", "*ConsistentHashing": "ConsistentHashing", "*Aggregator": "Aggregator", "*keepSafe": "keepSafe", "RW": "RW",
+	"*Destination": "Destination", "*baseRoute": "baseRoute", "*ConsistentHasher": "ConsistentHasher", "*ConsistentHashing": "ConsistentHashing", "*Aggregator": "Aggregator", "*keepSafe": "keepSafe", "RW": "RW",
 	"time.Duration": "Int", "matcher.Matcher": "MatcherArgs", "GrafanaNetConfig": "GrafanaNetConfig",
 	"*toki.Scanner": "Scanner", "table.Interface": "TableI", "*destination.Destination": "DestP",
 	"route.Route": "RouteI", "*matcher.Matcher": "MatcherI", "*aggregator.Aggregator": "AggregatorI", "rewriter.RW": "RewriterI",
